@@ -303,6 +303,38 @@ func c04Programs(r *run.Run) {
 			c04Check(c, "curve pairs", []*cff.Glyph{cff.NewGlyph(".notdef", 0), buildGlyph("A", 321, [2]float64{-100, 50}, segs)}, desc)
 		})
 
+	{
+		const u = 1.0 / 65536
+		lineVals := []float64{0, u, -3 * u, 6 * u, 10}
+		curveVals := []float64{0, 2 * u, -10}
+		var tiny []c04Seg
+		for _, dx := range lineVals {
+			for _, dy := range lineVals {
+				tiny = append(tiny, c04Seg{fmt.Sprintf("line(%v/65536,%v/65536)", dx*65536, dy*65536), 'L', [6]float64{dx, dy}},
+					c04Seg{fmt.Sprintf("move(%v/65536,%v/65536)", dx*65536, dy*65536), 'M', [6]float64{dx, dy}})
+			}
+		}
+		for i := 0; i < 81; i++ {
+			d := [6]float64{curveVals[i%3], curveVals[i/3%3], 6, -4, curveVals[i/9%3], curveVals[i/27%3]}
+			tiny = append(tiny, c04Seg{fmt.Sprintf("curve(%v,%v,6,-4,%v,%v)/65536", d[0]*65536, d[1]*65536, d[4]*65536, d[5]*65536), 'C', d})
+		}
+		r.Explore(explore.Config{Name: "C04.tiny-steps"},
+			fmt.Sprintf("paths of 1..2 segments over a %d-segment alphabet whose steps are zero, a few units of the 16.16 resolution (1, 2, 3, 6 units of 1/65536) or ordinary: a step is left out of the charstring only when it is exactly zero (almost axis-aligned lines, curves and moves)", len(tiny)),
+			func(c *explore.Ctx) {
+				n := 1 + c.Choose(2, "segments")
+				var segs []c04Seg
+				var names []string
+				for i := 0; i < n; i++ {
+					sg := tiny[c.Choose(len(tiny), "segment")]
+					segs = append(segs, sg)
+					names = append(names, sg.name)
+				}
+				c.Sample(func() any { return names })
+				c.Nontrivial()
+				g := buildGlyph("A", 500, [2]float64{100, 200}, append(segs, c04Seg{"line(10,10)", 'L', [6]float64{10, 10}}))
+				c04Check(c, "tiny steps", []*cff.Glyph{cff.NewGlyph(".notdef", 500), g}, names)
+			})
+	}
 	r.Explore(explore.Config{Name: "C04.far-jumps"},
 		"paths of 1..2 segments (moveto, lineto, curveto) between the corners and edge midpoints of the coordinate range [-32000, 32000]^2: single steps of up to 64000 units, more than one charstring number can hold",
 		func(c *explore.Ctx) {
